@@ -150,6 +150,11 @@ def build_futures():
     _SHIM_FUTURES["_base"] = base
     thread = _exec_stdlib("concurrent.futures.thread", "shim_futures_thread", ov)
     _SHIM_FUTURES["thread"] = thread
+
+    def reset():
+        thread._global_shutdown_lock._at_fork_reinit()
+        thread._shutdown = False
+    ds.RESET_HOOKS.append(reset)
     return _SHIM_FUTURES
 
 
